@@ -271,11 +271,15 @@ def make_world(env, rng, kind, lb_params=None, open_delay=None, get_servers_dela
     w.created_in_dispatch = []
     try:
       w.top.AsyncProcessRequest(stack, msg, None, {})
+    except Exception as e:  # noqa: an exception escaping the balancer is an observation, not a harness crash
+      import traceback
+      req['raised'] = (e, traceback.format_exc()[-900:])
     finally:
       w.dispatching = None
     req['created_in_dispatch'] = list(w.created_in_dispatch)
     return req
   w.dispatch = dispatch
+  w.complete_raised = []
 
   def complete(req, how='reply'):
     """Complete an in-flight request on its channel."""
@@ -288,7 +292,12 @@ def make_world(env, rng, kind, lb_params=None, open_delay=None, get_servers_dela
       m = MethodReturnMessage(return_value=('r', req['id']))
     else:
       m = MethodReturnMessage(error=Exception(how))
-    req['stack'].AsyncProcessResponseMessage(m)
+    try:
+      req['stack'].AsyncProcessResponseMessage(m)
+    except Exception as e:  # noqa
+      import traceback
+      req['complete_raised'] = (e, traceback.format_exc()[-900:])
+      w.complete_raised.append(req)
   w.complete = complete
 
   def heap_channels():
